@@ -31,9 +31,9 @@ theorem runTask_skeleton :
         RunTask = true ∧
     -- every guard's failure event sits between its guard and the next one
     chk ["runDeps", "hook:depsDone", "hook:ctxErr", "preconditions", "hook:precondFail", "isUpToDate", "hook:upToDate",
-         "prompt", "hook:promptFail", "mkdir"]
+         "prompt", "hook:promptFail", "hook:promptErr", "mkdir"]
         ["runDeps", "hook:depsDone", "hook:depsDone", "hook:ctxErr", "preconditions", "hook:precondFail", "isUpToDate",
-         "hook:upToDate", "prompt", "hook:promptFail", "hook:promptFail", "mkdir"]
+         "hook:upToDate", "prompt", "hook:promptFail", "hook:promptFail", "hook:promptErr", "mkdir"]
         RunTask = true := by decide
 
 /-- `RunTask`, the status rule (C03; after the fix of `C03-dedup-waiter-status`): inside the
